@@ -8,6 +8,7 @@ mod c05;
 mod c0607;
 mod c08;
 mod c09;
+mod c10;
 mod c13;
 mod c15;
 mod c16;
@@ -74,7 +75,14 @@ fn main() {
             let seed: u64 = args.get(2).and_then(|s| s.parse().ok()).unwrap_or(0);
             let full = args.get(3).map(|s| s == "full").unwrap_or(false);
             let r = match pid {
-                "C08" => c08::search(seed, full, &rt),
+                "C08" => {
+                    // marker agreement + the history verifier on proofs with withheld / truncated marker lists
+                    let a = c08::search(seed, full, &rt);
+                    let b = c0607::search("C07", seed, full, &rt);
+                    let mut failures = a.failures;
+                    failures.extend(b.failures);
+                    SearchResult { evaluations: a.evaluations + b.evaluations, failures, summary: format!("{}; {}", a.summary, b.summary) }
+                }
                 "C17" => c17::search(seed, full),
                 "C05" => c05::search(seed, full, &rt),
                 "C06" => c0607::search(pid, seed, full, &rt),
@@ -87,6 +95,7 @@ fn main() {
                     SearchResult { evaluations: a.evaluations + b.evaluations, failures, summary: format!("{}; {}", a.summary, b.summary) }
                 }
                 "C09" => c09::search(seed, full, &rt),
+                "C10" => c10::search(seed, full, &rt),
                 "C13" => c13::search(seed, full, &rt),
                 "C15" => c15::search(seed, full, &rt),
                 "C16" => c16::search(seed, full, &rt),
@@ -110,6 +119,7 @@ fn main() {
                 "c05" => c05::replay(&case[1..], &rt),
                 "c06" | "c07" => c0607::replay(case[0], &case[1..], &rt),
                 "c09" => c09::replay(&case[1..], &rt),
+                "c10" => c10::replay(&case[1..], &rt),
                 "c13" => c13::replay(&case[1..], &rt),
                 "c15" => c15::replay(&case[1..], &rt),
                 "c16" => c16::replay(&case[1..], &rt),
